@@ -355,7 +355,7 @@ CallProg(nrm, call, b) ==
 \* ------------------------------------------------------------- one section
 \* Exec runs the pushes and then one mutex section.  Result: new context,
 \* stack, remaining program, returned bytes (tval), ghost updates.
-Exec(c, pr0, st0, ld, decoding) ==
+Exec(c, pr0, st0, ld, decoding, wasRacy) ==
   LET sk == SkipPushes(pr0, st0)
       ins == sk.pr[1]
       rest == Tail(sk.pr)
@@ -367,6 +367,8 @@ Exec(c, pr0, st0, ld, decoding) ==
              tie  == ins.op = "union" /\ \E i, j \in 1..Len(args) :
                         i < j /\ CmpT(OS(c.byID, args[i]), OS(c.byID, args[j])) = 0
              r == LookupNode(c, [k |-> ins.op, s |-> ins.s, c |-> kids]) IN
+         IF r.id = 0 THEN [base EXCEPT !.st = <<0>>, !.pr = <<>>]   \* error: the whole call fails (nil, nil)
+         ELSE
          [base EXCEPT !.c = r.c, !.st = Append(SubSeq(st, 1, Len(st) - ins.n), r.id),
                       !.ld = IF ins.op = "named" /\ decoding THEN [ld EXCEPT ![ins.s[1]] = r.id] ELSE ld,
                       !.t = IF tie THEN {"tie"} ELSE {}]
@@ -386,12 +388,14 @@ Exec(c, pr0, st0, ld, decoding) ==
          \* retained and replaces the bytes the context owned.
          [base EXCEPT !.c = [c EXCEPT !.toValue = (typ :> [b |-> ins.s, o |-> ins.n]) @@ @,
                                        !.toType = (ins.s :> typ) @@ @],
-                      !.t = IF old.b # ins.s THEN {"noncanon"} ELSE {}]
+                      \* a call that lost the typedef race caches its wrong result under the
+                      \* key of the type it was asked for: the cache is poisoned for good
+                      !.t = (IF old.b # ins.s THEN {"noncanon"} ELSE {}) \cup (IF wasRacy THEN {"poison"} ELSE {})]
 
 \* A whole call without preemption (Gran = "call").
 RECURSIVE RunAll(_, _, _, _, _, _, _)
 RunAll(c, pr, st, ld, decoding, race, t) ==
-  LET r == Exec(c, pr, st, ld, decoding) IN
+  LET r == Exec(c, pr, st, ld, decoding, race) IN
   IF r.pr = <<>> THEN [r EXCEPT !.race = race \/ r.race, !.t = t \cup r.t]
   ELSE RunAll(r.c, r.pr, r.st, r.ld, decoding, race \/ r.race, t \cup r.t)
 
@@ -450,7 +454,7 @@ Start(p, call, nrm) ==
 \* One mutex section of process p.
 Step(p) ==
   /\ Gran # "call" /\ turn \in {0, p} /\ ~Idle(p)
-  /\ LET r == Exec(cx, prog[p], stk[p], ldefs[p], cur[p].m # "fields")
+  /\ LET r == Exec(cx, prog[p], stk[p], ldefs[p], cur[p].m # "fields", racy[p])
          fin == r.pr = <<>>
          \* the real code can be parked only in the hook after a NameDef of a decode
          yield == fin \/ Gran = "lock" \/ (Head(SkipPushes(prog[p], <<>>).pr).op = "named" /\ cur[p].m # "fields")
@@ -521,7 +525,7 @@ OwnedPure == \A i \in Ids(cx) : cx.toValue[i].o = 0 => cx.toValue[i].b = TVid(cx
 
 \* Every key of toType denotes its type (decoding the key yields the type).
 KeysDenote ==
-  (taint \cap {"noncanon", "race"} = {}) =>
+  (taint \cap {"noncanon", "poison"} = {}) =>
      \A key \in DOMAIN cx.toType : TVid(cx.byID, cx.toType[key]) = key
 
 \* RoundTrip / DecodeCorrect: every finished call that denotes a type returned
@@ -529,8 +533,8 @@ KeysDenote ==
 \* by bare decoding, in any context state ("anywhere"), unless that very call
 \* read a typedef rebound by a concurrent call (the modelled race).
 Denotes(ev) ==
-  \/ ~ev.fin \/ ev.m \in {"tval", "tdef"} \/ ev.racy
-  \/ (ev.m = "fields" /\ ev.r = 0 /\ HasDup(ev.ot.s))
+  \/ ~ev.fin \/ ev.m \in {"tval", "tdef"} \/ ev.racy \/ "poison" \in taint
+  \/ (ev.r = 0 /\ HasDup(ev.ot.s))
   \/ (ev.r \in Ids(cx) /\ Norm(OS(cx.byID, ev.r)) = Norm(ev.ot))
 \* byID only grows, so it suffices to look at the event just appended.
 DecodeCorrect == (h # <<>> /\ h[Len(h)].e \in {"step", "call"}) => Denotes(h[Len(h)])
